@@ -121,6 +121,7 @@ func c02Register(c *Ctx, rng *lab.RNG, stream uint64) {
 			l.C.Close()
 			return
 		}
+		l.C.Wait() // one at a time: with a write buffer of 1 a second new item would be dropped
 		ops = append(ops, porcupine.Operation{ClientId: 0, Input: regIn{k, true, v}, Call: t1, Output: uint64(0), Return: t2})
 	}
 	l.C.Wait()
